@@ -199,6 +199,19 @@ func calculateResourceQOSCfgMerged(oldCfg configuration.ResourceQOSCfg, configMa
 		var mergedNodeStrategy *slov1alpha1.ResourceQOSStrategy
 		clusterCfgCopy := mergedCfg.ClusterStrategy.DeepCopy()
 		if nodeStrategy.ResourceQOSStrategy != nil {
+			// json.Unmarshal decodes array elements into the existing elements: blocks set by the node strategy
+			// replace the cluster's blocks instead of being mixed with them index by index
+			for _, c := range [][2]*slov1alpha1.ResourceQOS{
+				{clusterCfgCopy.LSRClass, nodeStrategy.ResourceQOSStrategy.LSRClass},
+				{clusterCfgCopy.LSClass, nodeStrategy.ResourceQOSStrategy.LSClass},
+				{clusterCfgCopy.BEClass, nodeStrategy.ResourceQOSStrategy.BEClass},
+				{clusterCfgCopy.SystemClass, nodeStrategy.ResourceQOSStrategy.SystemClass},
+				{clusterCfgCopy.CgroupRoot, nodeStrategy.ResourceQOSStrategy.CgroupRoot},
+			} {
+				if c[0] != nil && c[1] != nil && c[0].BlkIOQOS != nil && c[1].BlkIOQOS != nil && c[1].BlkIOQOS.Blocks != nil {
+					c[0].BlkIOQOS.Blocks = nil
+				}
+			}
 			mergedStrategyInterface, _ := util.MergeCfg(clusterCfgCopy, nodeStrategy.ResourceQOSStrategy)
 			mergedNodeStrategy = mergedStrategyInterface.(*slov1alpha1.ResourceQOSStrategy)
 		} else {
